@@ -25,7 +25,8 @@ CONSTANTS MaxPage,                   \* configured records per page
           EmptyWriteEmitsPages,      \* L1a: Write with nothing pending still emits one zero-value page per column
           FooterSkipsDroppedBytes,   \* L1b: footer offsets ignore the bytes of row groups it drops
           FooterCountsAddedRows,     \* L2 : footer num_rows = number of Adds, written or not
-          SwallowSinkError           \* a failed sink write is not reported by the API call
+          SwallowSinkError,          \* a failed sink write is not reported by the API call
+          ChildPagesHoldOneMore      \* the record that opens a child page is not counted against its capacity (seeded change S56)
 
 VARIABLES chain, pending, docs, rgDocs, rgs, sink, calls, wcount, ops, state, lastRes, faultHit, footer, faultAt
 
@@ -76,7 +77,7 @@ New == /\ state = "fresh"
 
 \* ---- Add: append to the last page, or open a child page when it is full
 Add == /\ state = "open" /\ ops < MaxOps
-       /\ chain' = IF chain[Len(chain)] = MaxPage THEN Append(chain, 1)
+       /\ chain' = IF chain[Len(chain)] = MaxPage + (IF ChildPagesHoldOneMore /\ Len(chain) > 1 THEN 1 ELSE 0) THEN Append(chain, 1)
                    ELSE [chain EXCEPT ![Len(chain)] = @ + 1]
        /\ pending' = pending + 1 /\ docs' = docs + 1 /\ rgDocs' = rgDocs + 1 /\ ops' = ops + 1
        /\ lastRes' = "ok" /\ faultHit' = FALSE
